@@ -24,3 +24,29 @@ RECL_QUICK = [('HPs<6>', '_hp'), ('EBR', '_ebr'), ('LFRC', '_lfrc')]
 RECL_ALL = RECL_QUICK + [('HEs<6>', '_he'), ('NEBR', '_nebr'), ('DEBRA', '_debra'), ('QSBR', '_qsbr'), ('STAMP', '_stamp'), ('HPd<2>', '_hpd')]
 def harnesses(tier):
     return [('hm', ('XV_RECL=%s' % r,), False, sfx) for r, sfx in (RECL_ALL if tier == 'thorough' else RECL_QUICK)]
+
+
+# ---------------------------------------------------------------------------------------------------------------
+# harris_michael_hash_map model (Model/HmmDefs.v): program generator and fixed cases for the trace correspondence
+# ---------------------------------------------------------------------------------------------------------------
+HMM_KEYS = [10, 15, 20, 30, 35, 41]
+def hmm_model_program(rng, iterators=True):
+    cfg = {'c': 'map', 'buckets': str(rng.choice([1, 2, 4])), 'memo': str(rng.choice([0, 1])),
+           'hash': rng.choice(['id', 'mod2', 'rev', 'const'] if rng.random() < 0.25 else ['id', 'mod2', 'rev'])}
+    nthr = rng.choice([2, 2, 3])
+    mapop = lambda: '%s %d' % (rng.choice(['ins', 'ins', 'getins', 'del', 'del', 'has', 'find']), rng.choice(HMM_KEYS))
+    itop = lambda: rng.choice(['itb', 'itf %d' % rng.choice(HMM_KEYS), 'itn', 'itn', 'itn', 'itd', 'ite', 'ite', 'itr'])
+    prog = []; shape = rng.choice(['map', 'iter', 'mixed']) if iterators else 'map'
+    for t in range(nthr):
+        if shape == 'map': ops = [mapop() for _ in range(rng.randint(3, 5))]
+        elif shape == 'iter' and t == 0:
+            ops = ['ins %d' % k for k in rng.sample(HMM_KEYS, rng.randint(2, 4))] + [rng.choice(['itb', 'itb', 'itf %d' % rng.choice(HMM_KEYS)])] \
+                  + [rng.choice(['itn', 'itn', 'itn', 'itd', 'ite']) for _ in range(rng.randint(3, 5))] + ['itr']
+        elif shape == 'iter': ops = [mapop() for _ in range(rng.randint(2, 4))]
+        else: ops = [(itop() if rng.random() < 0.45 else mapop()) for _ in range(rng.randint(3, 6))]
+        prog.append(ops)
+    return cfg, prog
+HMM_FIXED = [({'c': 'map', 'buckets': '2', 'memo': '1', 'hash': 'mod2'}, [['ins 10', 'ins 20', 'ins 15', 'itf 20', 'ite', 'itd'], ['ins 30', 'del 30', 'ins 41']]),
+             ({'c': 'map', 'buckets': '1', 'memo': '0', 'hash': 'id'}, [['getins 10', 'has 10'], ['getins 10', 'del 10'], ['ins 10']]),
+             ({'c': 'map', 'buckets': '4', 'memo': '1', 'hash': 'rev'}, [['ins 10', 'ins 15', 'ins 20', 'ins 41', 'itb', 'itn', 'itn', 'itn', 'itn'], ['del 10', 'del 20'], ['del 15', 'ins 15']]),
+             ({'c': 'map', 'buckets': '1', 'memo': '1', 'hash': 'mod2'}, [['ins 10', 'ins 15', 'ins 20', 'itb', 'itn', 'itn', 'itn'], ['del 15']])]
